@@ -345,19 +345,6 @@ fn replay(ctx: &Ctx, w: &Value) -> Vec<Violation> {
     out.violations
 }
 
-/// Split the faceted outcome labels into one histogram per facet.
-fn marginals(outcomes: &BTreeMap<String, u64>) -> Map<String, Value> {
-    let mut m: BTreeMap<String, BTreeMap<String, u64>> = BTreeMap::new();
-    for (label, count) in outcomes {
-        for facet in label.split('|') {
-            if let Some((k, v)) = facet.split_once('=') {
-                *m.entry(k.to_string()).or_default().entry(v.to_string()).or_default() += count;
-            }
-        }
-    }
-    m.into_iter().map(|(k, v)| (k, json!(v))).collect()
-}
-
 fn main() {
     let ctx = Ctx::from_env("C05", "exploration");
     let thorough = ctx.tier == mcx::Tier::Thorough;
